@@ -62,6 +62,10 @@ def run_case(impl_dir, data, mode="parse", args=(), big_stack=False, cpu=10, wal
     """One run of `main` on the byte string `data`. Returns rc (negative = signal), CPU seconds, stdout/stderr."""
     d = tempfile.mkdtemp(prefix="c10run-", dir=common.SCRATCH_ROOT)
     try:
+        try:
+            os.utime(impl_dir, None)      # keep the cached build "recent": other checks prune .cache/impl by mtime during long runs
+        except OSError:
+            pass
         p = os.path.join(d, "t.cb")
         with open(p, "wb") as fh:
             fh.write(data)
